@@ -14,8 +14,8 @@ hence "every start depth of every chain" == "every chain of length s started at 
 
 Device boundary: the only real mount points on the upward ``..`` walk lie above the
 scratch directory (a symlink into another filesystem does not help: ``..`` from the link
-target leads to the target's real parent and never comes back), and the harness may not
-mount.  The boundary between two chain levels is therefore *virtual*: the name ``os``
+target leads to the target's real parent and never comes back), and the harness does not
+mount filesystems (privileged, global side effect).  The boundary between two chain levels is therefore *virtual*: the name ``os``
 inside gemato.find_top_level is replaced by a proxy whose stat/lstat/fstat shift st_dev
 of everything outside the "inner" chain prefix (DevMap); everything else is the real os.
 The second device check of the routine (fstat of the opened Manifest) is additionally
@@ -36,23 +36,30 @@ from gverif.treemodel import compress, decompress
 
 PID = 'C15'
 LEVEL = 'model_checking'
-RULE = ('every directory chain r/c1/../cs with start depth s<=4 (quick and thorough; thorough '
-        'also s=5,6 with a reduced per-level menu) where each level below the start independently '
-        'takes one option of {no Manifest} + {plain, gz} x IGNORE menu built around the start path '
-        '{none, every whole-component prefix of the start path (next component .. exact start), '
-        'sibling, string-prefix look-alikes of the next component (shorter / longer), and in '
-        'thorough also descendant-of-start, deep sibling, look-alikes of the last component}; '
-        'family "special" puts one level on {bz2, lzma, xz, plain+gz twins, empty Manifest, '
-        'non-IGNORE entries before/after/without an IGNORE, several IGNOREs, noise entries, IGNORE '
-        'at the start level itself} with the other levels on a 4-option menu; family "forms" varies '
-        'how the start path is spelled (absolute, trailing slash, relative, "."); family "mlink" '
-        'makes Manifest a symlink to a file on a second real filesystem.  Every chain is crossed '
-        'with allow_compressed off/on x {no device boundary, boundary above level b for every '
-        'b in 1..s} x allow_xdev on/off.  A case = (chain option labels, start depth, boundary, '
-        'allow_xdev, allow_compressed, path form); all cases are distinct by construction and are '
-        'counted through their digests.  Non-trivial = reference verdict definite, at least one '
-        'Manifest file on the chain, and at least one discriminator (second Manifest, an IGNORE '
-        'line, a compressed Manifest, or a device boundary at or below the start).')
+RULE = ('every directory chain r/c1/../cs started at its deepest level s (the walk never looks below '
+        'the start, so this covers every start depth of every chain), s<=4 in both tiers (family A), '
+        'where each level below the start independently takes one option of {no Manifest} + plain x '
+        'IGNORE menu built around the start path {no IGNORE, every whole-component prefix of the '
+        'start path (next component, deeper prefixes, exact start), sibling, string-prefix look-alikes '
+        'of the next component (shorter and longer); thorough adds descendant-of-start, sibling of the '
+        'start, look-alikes of the last component} + gz x {no IGNORE, exact start, longer look-alike; '
+        'thorough adds next component}, and the start level takes {none, plain, gz}.  Thorough family '
+        'C: s=5 with per-level menu {none, plain x {-, next, exact, sibling, look-alike}, gz x {-, '
+        'exact}} and s=6 with {none, plain x {-, exact, look-alike}, gz}.  Family B ("special", s<=3 '
+        'quick / <=4 thorough): one level at every position takes each of {bz2, lzma, xz} x {-, exact}, '
+        'plain+gz twins (same / differing contents), empty Manifest, DATA/MISC/DIST entries for the '
+        'path before / after / without an IGNORE, several IGNOREs, noise entries, IGNOREs in the start '
+        'directory itself, while all other levels range over {none, plain, plain+exact, gz}.  Family E '
+        '("forms", s<=3): start path spelled with trailing slash / relative to cwd / "." .  Family D '
+        '("mlink", s<=3): Manifest is a symlink to a file on a second real filesystem, with and '
+        'without IGNORE.  Every chain is crossed with allow_compressed off/on x {no device boundary, '
+        'boundary directly above level b for every b in 1..s} x allow_xdev off/on (family C: '
+        'allow_xdev on only for b in {none, s}).  A case = (family, option labels of all levels, '
+        'start depth, boundary, allow_xdev, allow_compressed, path form); cases are distinct by '
+        'construction and counted through their digests (finish() checks digests == calls).  '
+        'Non-trivial = reference verdict definite, at least one Manifest file on the chain, and at '
+        'least one discriminator (second Manifest, an IGNORE line, a compressed or foreign Manifest, '
+        'or a device boundary).')
 ASSUMPTIONS = [
     'reference() is an independent restatement of the statement (upward walk, whole-component '
     'IGNORE match, outermost candidate, compressed only when allowed, stop at device boundary); '
@@ -302,7 +309,7 @@ def ig_menu(i, s, names, which):
     elif which == 'gz_quick':
         out += [pre[-1], llong]
     elif which == 'gz_thorough':
-        out += ([pre[0]] if L > 1 else []) + [pre[-1], sib, lshort, llong]
+        out += ([pre[0]] if L > 1 else []) + [pre[-1], llong]
     elif which == 'small':            # {none, exact}
         out += [pre[-1]]
     elif which == 'deep5':            # what the statement names: path, ancestor, sibling, look-alike
@@ -333,7 +340,10 @@ def level_menu(fam, tier, i, s, names):
     elif fam == 'C':
         which = 'deep5' if s == 5 else 'deep6'
         out += [Lv('plain', lab, en) for lab, en in ig_menu(i, s, names, which)]
-        out += [Lv('gz', lab, en) for lab, en in ig_menu(i, s, names, 'small')]
+        if s == 5:
+            out += [Lv('gz', lab, en) for lab, en in ig_menu(i, s, names, 'small')]
+        else:
+            out += [Lv('gz', 'none', [BENIGN])]
     elif fam in ('B', 'E'):
         out += [Lv('plain', lab, en) for lab, en in ig_menu(i, s, names, 'small')]
         out += [Lv('gz', 'none', [BENIGN])]
@@ -492,6 +502,7 @@ class Chain:
         self.written = [[] for _ in self.dirs]
         self.lvs = [NONE] * (s + 1)
         self.serial = 0
+        self.want = None          # reference class this shard contributes a written-out sample of
 
     def set(self, i, lv):
         d = self.dirs[i]
@@ -620,7 +631,7 @@ def check_one(chain, b, xdev, comp, form='abs', group='chain', stats=None):
 
     if o['kind'] == 'exc':
         sig = {'check': 'internal_error' if o.get('class') == 'internal' else 'unexpected_exception',
-               'group': group, 'exc': o['exc'], 'comp': comp, 'xdev': xdev, 'boundary': b is not None}
+               'group': group, 'exc': o['exc']}
         if o.get('class') == 'internal':
             sig['where'] = o.get('where')
         kinds = sorted({lv.tag for lv in lvs if lv.present()})
@@ -653,11 +664,10 @@ def check_one(chain, b, xdev, comp, form='abs', group='chain', stats=None):
                     rel = 'inner'
                 else:
                     rel = 'same_dir_other_name'
-                sig = {'check': 'wrong_result', 'group': group, 'ref': ref.cls, 'got': rel,
-                       'at': blame(chain, ref, got, comp), 'comp': comp, 'xdev': xdev,
-                       'boundary': b is not None}
-                if form != 'abs':
-                    sig['form'] = form
+                # sig classifies the defect, not the case: flags / path form / reference class
+                # are in the case and the message only
+                sig = {'check': 'wrong_result', 'group': group, 'got': rel,
+                       'at': blame(chain, ref, got, comp)}
                 want = sorted((chain.expected_path(a) or 'None') for a in accept)
                 viol = mk(sig, f'wrong Manifest: reference {ref.cls} -> {" or ".join(want)}, '
                                f'gemato returned {val!r} ({rel}, diverged at {sig["at"]})')
@@ -693,11 +703,12 @@ def flagset(s, fam):
             out += [(None, True, comp, form), (None, False, comp, form)]
             for b in range(1, s + 1):
                 out.append((b, False, comp, form))
-                if fam != 'C' or b in (1, s):
+                if fam != 'C' or b == s:
                     out.append((b, True, comp, form))
     return out
 
 
+SAMPLE_CLASSES = ('stop-ignore', 'outermost', 'stop-xdev', 'none/ignore', 'single', 'none/xdev', 'dontcare')
 GROUP = {'A': 'chain', 'B': 'chain', 'C': 'chain', 'E': 'forms', 'D': 'mlink'}
 
 
@@ -729,10 +740,15 @@ def run_leaf(chain, fam, stats, extra_key=()):
                 c['ref_stop_' + ref.stop[0]] += 1
                 if ref.beyond:
                     c['ref_stop_' + ref.stop[0] + '_hiding_outer_manifest'] += 1
-        if len(stats.samples) < 3 and definite and ref.stop is not None and ref.result is not None and len(ref.cands) >= 1 \
-                and (len(stats.samples) == 0 or b is not None):
-            stats.sample({'chain': describe(chain, b, xdev, comp, form), 'reference': ref.cls,
-                          'expected': 'level %d %s' % ref.result})
+        if not stats.samples and n_present >= 2 and (ref.cls if definite else 'dontcare') == chain.want:
+            stats.sample({
+                'case': describe(chain, b, xdev, comp, form),
+                'manifests': {('r' if i == 0 else '/'.join(chain.names[1:i + 1])) + '/' + fn:
+                              (lv.text if fmt is None else lv.ctext)
+                              for i, lv in enumerate(lvs) for fn, _d, fmt in lv.files()},
+                'reference': ref.cls if definite else 'dontcare: ' + ref.reason,
+                'expected_return': ('None' if ref.result is None else
+                                    'level %d %s' % ref.result) if definite else 'any'})
     for (b, xdev, comp, form), r in refs.items():
         if comp:
             r0 = refs.get((b, xdev, False, form))
@@ -815,12 +831,10 @@ def shards(tier, seed):
                 for n in sizes:
                     leaves *= n
                 k = _split(menus, target)
+                cost = leaves
+                for n in sizes[:k]:
+                    cost //= n
                 for p in _prefixes(sizes, k):
-                    cost = leaves
-                    for j in p:
-                        pass
-                    for n in sizes[:k]:
-                        cost //= n
                     out.append((fam, s, sp, p, cost * len(flagset(s, fam))))
     out.sort(key=lambda x: -x[4])
     return [x[:4] for x in out]
@@ -853,6 +867,7 @@ def run_shard(spec, tier, seed, scratch):
                 stats.counters['mlink_skipped'] += 1
                 return stats
         chain = Chain(root, names, s, other)
+        chain.want = SAMPLE_CLASSES[(s + sum(prefix) + (sp or 0)) % len(SAMPLE_CLASSES)]
         menus = menus_for(fam, tier, s, names, sp)
         dfs(chain, menus, prefix, fam, stats, extra_key=(('special', sp),) if fam == 'B' else ())
     finally:
